@@ -14,7 +14,8 @@
 (***************************************************************************)
 EXTENDS UbxBytes
 
-SockInit0(segs) == [net |-> segs, buf |-> <<>>, pend |-> "ctor", need |-> 0, line |-> <<>>, results |-> <<>>, calls |-> <<>>]
+SockInit0(segs) == [net |-> segs, buf |-> <<>>, pend |-> "ctor", need |-> 0, line |-> <<>>, results |-> <<>>, calls |-> <<>>,
+                    sent |-> <<>>, wlen |-> 0]
 
 Min3(a, b) == IF a < b THEN a ELSE b
 
@@ -35,6 +36,11 @@ CtorRecv(s, bufsize) == [s EXCEPT !.buf = s.buf \o RecvData(s, bufsize), !.net =
 StartRead(s, n) == [s EXCEPT !.pend = "read", !.need = n, !.calls = Append(s.calls, [op |-> "read", n |-> n])]
 StartLine(s) == [s EXCEPT !.pend = "line", !.need = 1, !.line = <<>>, !.calls = Append(s.calls, [op |-> "line", n |-> 0])]
 
+\* write(data): handed to socket.send() as is, once; touches neither the receive buffer nor the network's inbound side;
+\* returns what send() returns (here: everything was sent)
+StartWrite(s, d) == [s EXCEPT !.pend = "write", !.wlen = Len(d), !.sent = Append(s.sent, d),
+                              !.calls = Append(s.calls, [op |-> "write", n |-> Len(d)])]
+
 \* a recv is issued exactly when a pending request finds fewer than `need` bytes buffered
 NeedsRecv(s) == s.pend \in {"read", "line"} /\ Len(s.buf) < s.need
 
@@ -48,7 +54,8 @@ DoRecv(s, bufsize) ==
 
 \* enough bytes buffered: complete (one byte at a time for readline)
 Complete(s) ==
-    IF s.pend = "read" THEN
+    IF s.pend = "write" THEN [s EXCEPT !.pend = "none", !.results = Append(s.results, <<>>)]   \* (contributes no inbound bytes)
+    ELSE IF s.pend = "read" THEN
         [s EXCEPT !.pend = "none", !.buf = SubSeq(s.buf, s.need + 1, Len(s.buf)),
                   !.results = Append(s.results, SubSeq(s.buf, 1, s.need))]
     ELSE LET b == s.buf[1]
@@ -64,6 +71,7 @@ Finish(s, bufsize) ==
     ELSE IF NeedsRecv(s) THEN Finish(DoRecv(s, bufsize), bufsize)
     ELSE Finish(Complete(s), bufsize)
 
+Write(s, d, bufsize) == Finish(StartWrite(Finish(s, bufsize), d), bufsize)
 Read(s, n, bufsize) == Finish(StartRead(Finish(s, bufsize), n), bufsize)
 ReadLine(s, bufsize) == Finish(StartLine(Finish(s, bufsize)), bufsize)
 LastResult(s) == s.results[Len(s.results)]
